@@ -15,7 +15,7 @@ from . import toy
 from .common import facts, far, simp, tensor_of
 
 PID = "C06"
-LEVEL = "other"
+LEVEL = "model_checking"
 CLAIM = (
     "Bounded symbolic verification: the real tf_pwa Model / BaseModel / FCN / CombineFCN / GaussianConstr / Model_cfit / "
     "ModelCfitExtended classes run on a symbolic tensorflow substitute around a density whose per-event values are uninterpreted "
@@ -266,6 +266,23 @@ def job_combine(ss, cfg1, cfg2):
     pay = _pay("combine", cfg1, cfg2=list(cfg2))
     ss.prove("nll.combine.sum_of_parts", F, far(a.t, b.t, 0), key="nll.combine", payload=pay, timeout=60, describe="simultaneous fit NLL = sum of the parts")
     ss.prove("nll.combine.value_with_grad", F, far(c.t, b.t, 0), key="nll.combine", payload=pay, timeout=60)
+    # with a Gaussian constraint, built the way MultiConfig.get_fcn does (the same dictionary goes to every part and to the sum):
+    # the constraint is counted once, by the value and by the value returned alongside the gradient
+    mu, sg = S.real("mu"), S.real("sigma")
+    S.assume(sg > 0)
+    gc = {"a": (mu, sg)}
+    f1c = FCN(model, data, mc, bg=bg, batch=2, gauss_constr=gc)
+    f2c = FCN(model, data2, mc2, batch=2, gauss_constr=gc)
+    combc = CombineFCN(fcns=[f1c, f2c], gauss_constr=gc)
+    vc = toy.scalar_term(combc({}))
+    vcg = toy.scalar_term(combc.nll_grad({})[0])
+    Fc = facts()
+    penalty = (th["a"] - mu) * (th["a"] - mu) / (2 * sg * sg)
+    refc = SymReal(b.t) + penalty
+    vc_s, vcg_s = simp(Fc, SymReal(vc), SymReal(vcg))
+    ss.prove("nll.combine.constraint_once", Fc, far(vc_s.t, refc.t, 0), key="nll.combine.constraint", payload=pay, timeout=60, describe="simultaneous fit with a Gaussian constraint: sum of the parts + the constraint term once")
+    ss.prove("nll.combine.constraint_once_with_grad", Fc, far(vcg_s.t, refc.t, 0), key="nll.combine.constraint", payload=pay, timeout=60, describe="the value returned with the gradient agrees")
+    ss.mutant("nll.combine.constraint_mutant", Fc + [T.ne(th["a"].t, mu.t)], far(vc_s.t, (SymReal(b.t) + 5 * penalty).t, 0))
     comb2 = CombineFCN(model=[model, model], data=[data, data2], mcdata=[mc, mc2], bg=[bg, None])
     raw3 = toy.scalar_term(comb2({}))
     tot3 = simp(facts(), SymReal(raw3))
